@@ -242,7 +242,13 @@ func (w *rworld) settle() bool {
 			if pe.zombies == 0 {
 				return n <= want
 			}
-			return n <= want+pe.zombies && time.Since(lastChange) > 250*time.Millisecond
+			// (a re-entrant handler that sends to the lost peer spends up to 0.5 s in dial retries
+			// on the in-memory transport before its loop goes on)
+			window := 250 * time.Millisecond
+			if w.hsend > 0 {
+				window = 900 * time.Millisecond
+			}
+			return n <= want+pe.zombies && time.Since(lastChange) > window
 		}, settleDeadline) && ok
 	}
 	return ok
